@@ -618,3 +618,62 @@ def positive_controls(chk, D, rules=("SWAPSYM", "GAPSHIFT", "DISTGUARD")):
             chk.analysis_broken("DISTGUARD: the positive control fixture::search_bad was not reported (%s)" % ([(v, m) for _x, v, m in rb or []],))
         if not (rg and all(v is True for _x, v, _m in rg)):
             chk.analysis_broken("DISTGUARD: the negative control fixture::search_good was not proved (%s)" % ([(v, m) for _x, v, m in rg or []],))
+
+
+# ---- TRAITSORD: characters are ordered through Traits, never with the built-in `<` -------------------------------------------
+ORDER_ALGOS_NOFUNCTOR = {"lexicographical_compare": 4, "lexicographical_compare_three_way": 4, "min_element": 2, "max_element": 2,
+                         "is_sorted": 2, "lower_bound": 3, "upper_bound": 3}
+
+
+def check_traits_order(f):
+    """[string.view.comparison] / [char.traits]: the ordering of two strings is Traits::compare's, i.e. Traits::lt's on the
+    first differing character - for `char` that is the order of `unsigned char`. Code that orders characters with the built-in
+    `<` (directly on two character reads, or through an ordering algorithm called without a comparator) disagrees for
+    characters >= 0x80 where plain char is signed. Equality (`==`) is not concerned.
+    returns None (nothing that orders characters) | list of (node, what)"""
+    if f.get("body") is None:
+        return None
+    out = []
+    subject = f["n"] in ("operator<", "operator>", "operator<=", "operator>=", "operator<=>", "compare")
+
+    def is_char_read(e):
+        e = astx.strip_casts(e)
+        if e is None:
+            return False
+        if e.get("k") == "un" and e.get("op") == "*":
+            return True
+        if e.get("k") == "idx":
+            return True
+        if e.get("k") == "call" and astx.callee(e)[0] in ("unsafe_at", "at", "front", "back", "operator[]"):
+            return True
+        return False
+    for x in astx.all_exprs(f, into_lambdas=True):
+        if x.get("k") == "call":
+            nm = astx.callee(x)[0]
+            if nm in ORDER_ALGOS_NOFUNCTOR and len(x["a"]) == ORDER_ALGOS_NOFUNCTOR[nm]:
+                subject = True
+                out.append((x, "`%s` is called without a comparator and orders the characters with the built-in `<`" % astx.show(x, 70)))
+        if x.get("k") == "bin" and x["op"] in ("<", ">", "<=", ">=") and is_char_read(x["l"]) and is_char_read(x["r"]):
+            subject = True
+            out.append((x, "`%s` orders two characters with the built-in `%s`" % (astx.show(x, 50), x["op"])))
+    return out if subject else None
+
+
+def traits_order_area(chk, db, files, rule="TRAITSORD", skip_records=("etl::detail::char_traits_base",)):
+    n = 0
+    for f in db.funcs:
+        if f.get("body") is None or f["file"] not in files or f.get("record") in skip_records:
+            continue
+        r = check_traits_order(f)
+        if r is None:
+            continue
+        n += 1
+        construct = astx.sig(f)
+        chk.instance(rule)
+        chk.obligation(rule, construct, not r)
+        for node, what in r[:1]:
+            chk.violation(rule, construct, "built-in-character-order",
+                          "%s: %s; the standard orders strings with Traits::compare / Traits::lt, which for char is the order of "
+                          "unsigned char: a character >= 0x80 sorts in front of 'a' here and behind it in std" % (astx.loc(f, node), what),
+                          {"where": astx.loc(f)})
+    return n
